@@ -161,6 +161,9 @@ pub struct Scenario {
     #[serde(default)]
     pub cli: Cli,
     pub sim: SimScenario,
+    /// Cli tier: ask for the pretty renderer (summary line) instead of the JSON report
+    #[serde(default)]
+    pub pretty: bool,
     /// which properties' oracles apply to this scenario (lanes built for one property may
     /// deliberately leave the envelope of another)
     pub check: Vec<String>,
